@@ -356,6 +356,12 @@ type Frps struct {
 
 // StartFrps builds a server config from documented JSON field names and runs it.
 func (w *World) StartFrps(node *simnet.Node, cfgJSON map[string]any) (*Frps, error) {
+	// the dashboard switches the server's in-memory statistics on: every proxy, connection and byte is then
+	// accounted in tables shared by all sessions (C16 batches; the services world always has it)
+	if _, has := cfgJSON["webServer"]; !has && w.In.Property == "C16" && w.KnobBool("frps_dashboard", 50) {
+		cfgJSON["webServer"] = map[string]any{"addr": "10.0.0.1", "port": 7500}
+		w.Probe("frps.dashboard_statistics")
+	}
 	b, _ := json.Marshal(cfgJSON)
 	cfg := &v1.ServerConfig{}
 	if err := config.LoadConfigure(b, cfg, true); err != nil {
